@@ -31,7 +31,7 @@ ASSUMPTIONS = [
     'site dipole of the property = Reynolds average of the symmetrised input over the site stabiliser, carried by a group element',
 ]
 
-NETS = ['FCC_T', 'FCC_OT', 'BCC_O', 'BCC_T', 'HCP_OT', 'HONEY', 'ROMEGA', 'RUMPLED2', 'WURTZ2', 'P1', 'P1_3', 'PMMM_G', 'P2MM_G', 'OBL3',
+NETS = ['FCC_T', 'FCC_OT', 'BCC_O', 'BCC_T', 'HCP_OT', 'HONEY', 'ROMEGA', 'RUMPLED2', 'WURTZ2', 'P1', 'P1_3', 'PMMM_G', 'P2MM_G', 'OBL3', 'TET4I',
         'RECTM', 'HEXM', 'KAGOME', 'POLAR4', 'PM2D']
 BASES = ['T', 'G1', 'G2']
 TOL = 1e-9
